@@ -1251,6 +1251,12 @@ func (s *LoadingStore[K, V]) Get(ctx context.Context, key K) (V, error) {
 				if err != nil && !errors.As(err, &notFound) {
 					return Loaded[V]{}, err
 				}
+				if ok && expire != 0 && expire <= s.timerwheel.clock.NowNano() {
+					// the copy in the secondary cache has passed its deadline: it must not
+					// be served; drop it and load the value afresh
+					_ = s.secondaryCache.Delete(key)
+					ok = false
+				}
 				if ok {
 					result = s.setShardWithoutLock(shard, h, key, vs, cost, expire, true)
 					entryCost = cost
